@@ -729,6 +729,7 @@ SPEC_C14 = {
     "theorems": [
         T14 + "run_frame", T14 + "run_frame_other", T14 + "run_state_fresh", T14 + "written_fields_are_listed",
         T14 + "shared_fields_not_written", T14 + "dag_is_cloned", T14 + "shared_calls_enumerated", T14 + "frame_covers_run_loop",
+        T14 + "shared_expression_objects_not_written_by_their_methods",
         T14 + "clone_independent", T14 + "clone_clone", T14 + "run_starts_from_prepared",
         T14 + "execute_is_function_of_inputs", T14 + "later_run_unaffected",
         # what a run acquires from the prepared workflow it gives back on every path (every function that calls Lock(), from the source)
